@@ -668,6 +668,8 @@ class MindsDBParser(Parser):
             type = p[1].parts[-1]
         else:
             type = p[1]
+        if not isinstance(type, str):
+            raise ParsingException(f'Unknown type of object to describe: {type}')
         type = type.replace(' ', '_')
         return Describe(value=p[2], type=type)
 
@@ -1463,6 +1465,7 @@ class MindsDBParser(Parser):
             if (
                     isinstance(arg, Identifier)
                     and len(arg.parts) == 1
+                    and isinstance(arg.parts[0], str)
                     and arg.parts[0].lower() == 'last'
             ):
                 args[i] = Last()
@@ -1472,6 +1475,8 @@ class MindsDBParser(Parser):
             if len(p.identifier.parts) > 1:
                 namespace = p.identifier.parts[0]
             name = p.identifier.parts[-1]
+            if not isinstance(name, str):
+                raise ParsingException(f'Wrong function name: {p.identifier}')
         else:
             name = p.function_name
         return Function(op=name, args=args, namespace=namespace)
